@@ -242,6 +242,12 @@ def run(tier):
             '\\u0041', '\\u0022', 'C:\\temp\\u00e9t', '\\U0041', '\\\\u0041', '\\u005c', '\\u005cn', '\\n', '\\t', '\\b',
             '\\$', '\\`', '\\"', 'x\\', '\\u00', '\\u12345', '\\:', '\\/', '\\#', '\\[', '\\@', '\\&', '\\=', '\\;',
             '%41', '&amp;', '&#65;', '\\x41', '\\101', '\\N{BULLET}', '${x}', '$x', '{0}', '%s']
+    # multi-line text one LINE of which is a typed literal of the other format (first, middle, last line)
+    typed = ['n:1', 'm:', 'x:', '-:', 'z:', 's:x', 'r:abc', 't:2020-01-01T00:00:00Z UTC', 'u:http://x', 'b:text/plain', 'c:1.0,2.0',
+             'd:2020-01-01', 'h:12:00:00', 'h:12:00', 'x:hex:ff', 'ver:"3.0"', 'N', 'M', '2020-01-01', '12:00:00', '@ref', 'C(1,2)',
+             '[1]', '{a}', '`u`', '"s"', '1kW', 'T', 'true', 'null']
+    rnd += [a + '\n' + t for t in typed for a in ('x', 'http://h/p')] + [t + '\n' + 'x' for t in typed] + \
+           ['x\n' + t + '\ny' for t in typed] + ['x\r\n' + t for t in typed[:14]]
     for pos in POSITIONS:
         for i in range(0, len(rnd), 250):
             jobs.append((pos, rnd[i:i + 250]))
